@@ -72,28 +72,26 @@ theorem comment_length_lt {s r : Src} (h : comment s = some r) : r.length < s.le
   · simp at h; subst h; rename_i t; have := lineEnd_length_le t; simp; omega
   · simp at h
 
-/-- `preParse`: skip `(ws* comment)* ws*` -/
-def skipGap (s : Src) : Src :=
-  match h : comment (skipWs s) with
-  | some r => skipGap r
-  | none => skipWs s
-termination_by s.length
-decreasing_by
-  have h1 := comment_length_lt h
-  have h2 := skipWs_length_le s
-  omega
+/-- `preParse`: skip `(ws* comment)* ws*` (fuel = number of comments that can still be skipped) -/
+def skipGapF : Nat → Src → Src
+  | 0, s => skipWs s
+  | n+1, s =>
+    match comment (skipWs s) with
+    | some r => skipGapF n r
+    | none => skipWs s
+
+def skipGap (s : Src) : Src := skipGapF s.length s
 
 /-- `_skipIgnorables` only (an element with `skipWhitespace = False`): comments with their
     leading whitespace are skipped, trailing whitespace is not -/
-def skipIgnorables (s : Src) : Src :=
-  match h : comment (skipWs s) with
-  | some r => skipIgnorables r
-  | none => s
-termination_by s.length
-decreasing_by
-  have h1 := comment_length_lt h
-  have h2 := skipWs_length_le s
-  omega
+def skipIgnorablesF : Nat → Src → Src
+  | 0, s => s
+  | n+1, s =>
+    match comment (skipWs s) with
+    | some r => skipIgnorablesF n r
+    | none => s
+
+def skipIgnorables (s : Src) : Src := skipIgnorablesF s.length s
 
 def stripPrefix : List Char → Src → Option Src
   | [], s => some s
